@@ -59,6 +59,7 @@ static int keep_going;
  * the configuration for their children, own private result slots, and exclude S (always) and the state table (when the scenario does
  * not use it) from what a child inherits. */
 static struct config child_cfg;
+static int child_cfg_valid;
 static int seen_inherited = 1;
 
 static double elapsed(void)
@@ -100,6 +101,8 @@ static int run_one(const struct work *w, struct result *r, int verbose)
 	r->status = -1;
 	r->msg[0] = 0;
 	r->nrec = 0;
+	if (!child_cfg_valid)		/* direct callers (replay): workers refresh their copy at the start of each pass */
+		child_cfg = S->cfg;
 	pid = fork();
 	if (pid < 0) {
 		perror("fork");
@@ -161,6 +164,7 @@ static void worker(int wid, struct result *r, struct result *r2)
 
 	(void)wid;
 	child_cfg = S->cfg;
+	child_cfg_valid = 1;
 	/* own result slots: a shared-memory object that only this worker and its current child map */
 	r = mmap(NULL, sizeof(*r) * 2, PROT_READ | PROT_WRITE, MAP_SHARED | MAP_ANONYMOUS | MAP_NORESERVE, -1, 0);
 	if (r == MAP_FAILED) {
